@@ -83,6 +83,11 @@ func measure(rc *RunCtx, d string, f func() (interface{}, error)) measured {
 	return measured{res, steps, depth, capHit, stepCap}
 }
 
+// discardSink is a trace writer that accepts everything and keeps nothing.
+type discardSink struct{}
+
+func (discardSink) Write(p []byte) (int, error) { return len(p), nil }
+
 func runRobustParse(rc *RunCtx) *Violation {
 	var v *Violation
 	simrt.RunInline(func() {
@@ -138,6 +143,13 @@ func robustOne(rc *RunCtx) *Violation {
 		variant += fmt.Sprintf(" MaxIterations=%d", participle.MaxIterations)
 		rc.probe("small MaxIterations")
 	}
+	// parse options that must not change what the clauses are about
+	var popts []participle.ParseOption
+	if simrt.Choose(6) == 1 {
+		popts = append(popts, participle.Trace(discardSink{}))
+		variant += " Trace"
+		rc.probe("parsed with the Trace option (output discarded)")
+	}
 	// callback outcome plan
 	var plan *cbPlanT
 	if w.hasCallbacks && subBatch != "faultfree" && simrt.Choose(2) == 1 {
@@ -190,9 +202,9 @@ func robustOne(rc *RunCtx) *Violation {
 		m := measure(rc, d, func() (interface{}, error) {
 			switch entry {
 			case "ParseString":
-				return p.ParseString(filename, d)
+				return p.ParseString(filename, d, popts...)
 			case "ParseBytes":
-				return p.ParseBytes(filename, []byte(d))
+				return p.ParseBytes(filename, []byte(d), popts...)
 			default:
 				if simrt.Choose(4) == 1 {
 					// a standard-library reader the caller has already read a header from
@@ -201,17 +213,17 @@ func robustOne(rc *RunCtx) *Violation {
 					case 0:
 						sr := strings.NewReader(skipped + d)
 						io.CopyN(io.Discard, sr, int64(len(skipped)))
-						return p.Parse(filename, sr)
+						return p.Parse(filename, sr, popts...)
 					case 1:
 						br := bytes.NewReader([]byte(skipped + d))
 						io.CopyN(io.Discard, br, int64(len(skipped)))
-						return p.Parse(filename, br)
+						return p.Parse(filename, br, popts...)
 					default:
-						return p.Parse(filename, io.NewSectionReader(strings.NewReader(skipped+d+"<<tail>>"), int64(len(skipped)), int64(len(d))))
+						return p.Parse(filename, io.NewSectionReader(strings.NewReader(skipped+d+"<<tail>>"), int64(len(skipped)), int64(len(d))), popts...)
 					}
 				}
 				rd = newSimReader(rc, d, tokenEnds(toks), readerOpts{allowError: subBatch != "faultfree" && simrt.Choose(6) == 1})
-				return p.Parse(filename, rd)
+				return p.Parse(filename, rd, popts...)
 			}
 		})
 		if rd != nil {
